@@ -46,6 +46,9 @@ def l3_frozen_marginal(chk, ctx, rng, n):
     # every (driver with pre-computed coefficients, frozen population) pair with the Chang-Cooper option on, constant parameters,
     # selection and migration among the others — on every run (seed C04-9: one coefficient block of one driver used delj for 1-delj)
     forced = [(d, k) for d in (2, 3) for k in range(d)]
+    # and every (4-/5-population driver, frozen population) pair on a generic density (seed C04-15: a corner guard of ONE axis kernel of the
+    # 5-D driver read the wrong loop index, visible only in the marginal of one particular frozen population), on every run
+    forced += [(d, k) for d in (4, 5) for k in range(d)]
     for it in range(-len(forced), n):
         fc = forced[it + len(forced)] if it < 0 else None
         d = 2 + it % 4 if fc is None else fc[0]
@@ -65,7 +68,7 @@ def l3_frozen_marginal(chk, ctx, rng, n):
         varying = bool((it // 4) % 2)          # independent of d (= 2 + it % 4)
         delj = bool((it // 8) % 2)             # the Chang-Cooper option: both the C kernels and the pre-computed Python coefficients
         if fc is not None:
-            varying = False; delj = True
+            varying = False if d <= 3 else bool(fc[1] % 2); delj = d <= 3
             fr = [i == fc[1] for i in range(d)]
             gammas = [float(rng.choice([-1, 1])) * float(rng.uniform(4, 9)) for _ in range(d)]
             for (i, j) in list(ms):
